@@ -106,9 +106,13 @@ def main(argv):
                     json.dump(spec, f)
                 outp = os.path.join(scratch, 'out%d' % i)
                 logf = open(outp + '.log', 'wb')
+                # str/bytes hashing is fixed per VERIF_SEED, so that set/dict iteration order in generators and in
+                # pcbasic itself is the same when a run (or a replay) is repeated
+                env = dict(os.environ)
+                env.setdefault('PYTHONHASHSEED', str(int(spec.get('seed', seed)) % 4294967295))
                 p = subprocess.Popen(
                     [PY, '-B', '-X', 'faulthandler', '-m', 'vf.worker', prop, specf, outp],
-                    stdout=logf, stderr=subprocess.STDOUT, cwd=HERE,
+                    stdout=logf, stderr=subprocess.STDOUT, cwd=HERE, env=env,
                 )
                 running[i] = (p, time.time(), outp, logf)
             time.sleep(0.05)
